@@ -784,6 +784,8 @@ class Interp:
                 return interp.expr(_body, e2)
 
             _lam._dl_lambda = True
+            _lam._dl_node = n
+            _lam._dl_env = env
             return _lam
         raise Unsupported(f"expression {type(n).__name__}")
 
